@@ -596,8 +596,9 @@ def _range_subset(i, o):
     return ol <= il and ih <= oh
 
 
-def converter_lattice(repo, col, in_types=None):
+def converter_lattice(repo, col, in_types=None, overrides=None):
     rule = "E-DTYPE"
+    overrides = overrides or {}
     outer = repo.func("data_types", "get_chunk_dtype_transformer")
     from .core import returned_closure
     inner = returned_closure(outer)
@@ -620,6 +621,7 @@ def converter_lattice(repo, col, in_types=None):
         for warn in (False, True):
             interp = Interp(outer.module)
             env = {p_in: DT(i), p_out: DT(o), "warn": warn}
+            env.update(overrides)
             a_ = outer.node.args
             allp = [x.arg for x in a_.posonlyargs + a_.args]
             dflt = dict(zip(allp[len(allp) - len(a_.defaults):],
@@ -891,3 +893,72 @@ def averaging_accumulator(repo, col):
         col.add(rule + ".pairs", fn, "axis %d pair sum" % ax, sl in txt,
                 "" if sl in txt else "pair sum along array axis %d not found "
                 "in the recognised form" % ax, undecided=sl not in txt)
+
+
+def converter_option_sites(repo, col):
+    """Call sites that build the converter with an option switched away from
+    its default (clip=False, ...): the lattice is evaluated with that option;
+    what the converter then no longer does is the caller's job, and the
+    caller has to be seen doing it."""
+    from .core import calls_in, call_name
+    from .report import Collector
+    rule = "E-DTYPE.option-site"
+    n = 0
+    fac = repo.func("data_types", "get_chunk_dtype_transformer")
+    a = fac.node.args
+    names = [x.arg for x in a.posonlyargs + a.args]
+    for m in repo.modules.values():
+        for fn in m.functions.values():
+            if fn.key == fac.key:
+                continue
+            for c in calls_in(fn.node):
+                if (call_name(c) or "").split(".")[-1] != \
+                        "get_chunk_dtype_transformer":
+                    continue
+                opts = {}
+                for p, av in list(zip(names, c.args))[2:]:
+                    if isinstance(av, ast.Constant):
+                        opts[p] = av.value
+                for k in c.keywords:
+                    if k.arg and isinstance(k.value, ast.Constant):
+                        opts[k.arg] = k.value.value
+                opts.pop("warn", None)
+                if not opts:
+                    continue
+                tmp = Collector(col.prop)
+                try:
+                    converter_lattice(repo, tmp, overrides=opts)
+                except Exception:
+                    continue
+                base = Collector(col.prop)
+                converter_lattice(repo, base)
+                known = {(o.rule, o.construct) for o in base.obs
+                         if o.status == "fail"}
+                lost = [o for o in tmp.obs if o.status == "fail" and
+                        (o.rule, o.construct) not in known]
+                n += 1
+                if not lost:
+                    col.add(rule, fn, "%s" % norm(c)[:70], True,
+                            "options %r change nothing the lattice checks"
+                            % opts, node=c)
+                    continue
+                kinds = sorted({o.rule.rsplit(".", 1)[-1] for o in lost})
+                does = {"clip": "clip", "round": "rint", "round-mode": "rint"}
+                own = any((call_name(x) or "").split(".")[-1] in
+                          {does.get(k_, "") for k_ in kinds} | {"round",
+                                                                "around"}
+                          for x in calls_in(fn.node)
+                          if (call_name(x) or "").split(".")[-1] !=
+                          "get_chunk_dtype_transformer")
+                col.add(rule, fn, "%s" % norm(c)[:70], own,
+                        "the caller does it itself (not verified here)"
+                        if own else
+                        "with %s the converter no longer does: %s (e.g. %s); "
+                        "nothing in %s does it instead, so out-of-range "
+                        "values reach the final cast and wrap" % (
+                            ", ".join("%s=%r" % kv for kv in opts.items()),
+                            ", ".join(kinds), lost[0].construct,
+                            fn.qualname), node=c, undecided=own)
+    col.add(rule, "package", "%d converter call sites with options" % n,
+            True, "", nontrivial=False)
+    return n
